@@ -130,8 +130,21 @@ class GenerateWasmVisitor(Visitor.DefaultVisitor):
         self, vai: LinearIR.VariableAccessInstruction, ctx: Context
     ):
         assert ctx.Code
-        if vai.Scope == LinearIR.VariableAccessScope.FUNCTION_ARGUMENT:
-            index = vai.Variable
+        if vai.Scope != LinearIR.VariableAccessScope.FUNCTION_ARGUMENT:
+            raise RuntimeError(
+                f"Unsupported variable access: {vai.Scope} '{vai.Variable}'"
+            )
+
+        index = vai.Variable
+        if vai.Store:
+            # Store to a parameter
+            self.__PushValueOntoStack(vai.Store, ctx)
+            ctx.Code.AddInstruction(
+                WebAssembly.Instruction(
+                    WebAssembly.opcodes["local.set"], (index,)
+                )
+            )
+        else:
             ctx.Code.AddInstruction(
                 WebAssembly.Instruction(
                     WebAssembly.opcodes["local.get"], (index,)
@@ -143,6 +156,13 @@ class GenerateWasmVisitor(Visitor.DefaultVisitor):
                     (ctx.GetLocalForReference(vai.Reference),),
                 )
             )
+
+    def v_Instruction(self, instruction: LinearIR.Instruction, ctx: Context):
+        # Everything without a dedicated handler cannot be translated. Silently
+        # skipping it would produce a module that computes something else.
+        raise RuntimeError(
+            f"Unsupported instruction for WebAssembly: {instruction.OpCode}"
+        )
 
     def __PushValueOntoStack(self, value: LinearIR.Value, ctx: Context):
         assert ctx.Code
